@@ -54,18 +54,18 @@ HTML_BOOLS = {"compact", "nowrap", "ismap", "declare", "noshade", "checked", "di
 
 
 def ser_static(name, kind):
-    return {'dq': ' %s="S%s"' % (name, name), 'sq': " %s='S%s'" % (name, name), 'unq': ' %s=S%s' % (name, name),
+    return {'dq': ' %s="S%s"' % (name, name), 'sq': " %s='S%s'" % (name, name), 'unq': ' %s=S%s' % (name, name), 'unqpath': ' %s=/S/%s.x' % (name, name),
             'dqent': ' %s="T&amp;J &lt;%s&gt; &#39;"' % (name, name), 'sqent': " %s='&quot;%s&quot; &amp; co'" % (name, name),
             'valueless': ' %s' % name, 'interp': ' %s="I${iv}"' % name, 'sqinterp': " %s='${iv}J'" % name, 'unqinterp': ' %s=${iv}' % name}[kind]
 
 
 def static_text(name, kind):
-    return {'dq': 'S' + name, 'sq': 'S' + name, 'unq': 'S' + name, 'valueless': '',
+    return {'dq': 'S' + name, 'sq': 'S' + name, 'unq': 'S' + name, 'valueless': '', 'unqpath': '/S/%s.x' % name,
             'dqent': 'T&amp;J &lt;%s&gt; &#39;' % name, 'sqent': '&quot;%s&quot; &amp; co' % name, 'interp': None, 'sqinterp': None, 'unqinterp': None}[kind]
 
 
 def static_quote(kind):
-    return {'dq': '"', 'sq': "'", 'unq': '', 'valueless': '', 'dqent': '"', 'sqent': "'", 'interp': '"', 'sqinterp': "'", 'unqinterp': ''}[kind]
+    return {'dq': '"', 'sq': "'", 'unq': '', 'unqpath': '', 'valueless': '', 'dqent': '"', 'sqent': "'", 'interp': '"', 'sqinterp': "'", 'unqinterp': ''}[kind]
 
 
 def esc(v, q):
@@ -143,7 +143,7 @@ def model(statics, entries, cfg, B):
                 out.append((n, 'bare', None, 'named'))
             else:
                 out.append((n, 'loose', val, 'named'))
-        elif kind in ('unq', 'unqinterp'):
+        elif kind in ('unq', 'unqinterp', 'unqpath'):
             out.append((n, 'loose', val, 'named'))
         else:
             out.append((n, 'value', (esc(val, q) if not isdef else val, q), 'named'))
@@ -252,7 +252,7 @@ def one_case(ctx, statics, entries, cfg, Bs, sample=False):
 def classify(statics, entries, cfg, B, out, exp):
     tk = {n.lower(): k for n, k in statics}
     hit = [tk[n.lower()] for n, var in entries if n and n.lower() in tk]
-    if any(k in ('unq', 'valueless', 'unqinterp') for k in hit):
+    if any(k in ('unq', 'valueless', 'unqinterp', 'unqpath') for k in hit):
         return 'dynamic-override-of-unquoted-or-valueless-static'
     if any(k in ('unq', 'unqinterp') for n, k in statics) and out.count('&#0;') >= 2:
         return 'unquoted-value-escaped-with-nul-entities'
@@ -269,7 +269,7 @@ def value_of(name):
 
 
 def layer_exhaustive(ctx):
-    kinds = ['dq', 'sq', 'unq', 'valueless']
+    kinds = ['dq', 'sq', 'unq', 'valueless', 'unqpath']
     names = ['a', 'checked', 'title']
     work = []
     for ns in range(0, 3):
@@ -298,7 +298,7 @@ def layer_exhaustive(ctx):
 def layer_random(ctx, n):
     rng = ctx.rng
     for case in range(n):
-        statics = [(nm if rng.random() < .8 else CASEVAR[nm], rng.choice(['dq', 'dq', 'sq', 'unq', 'valueless', 'interp', 'sqinterp', 'unqinterp', 'dqent', 'sqent']))
+        statics = [(nm if rng.random() < .8 else CASEVAR[nm], rng.choice(['dq', 'dq', 'sq', 'unq', 'valueless', 'interp', 'sqinterp', 'unqinterp', 'dqent', 'sqent', 'unqpath']))
                    for nm in rng.sample(NAMES, rng.randint(0, 4))]
         static_l = {n.lower(): k for n, k in statics}
         entries = []
